@@ -323,6 +323,36 @@ static void spawn_valid(long idx)
   close(u_handle);
 }
 
+/* a redirect type that is none of the enumerators cannot be satisfied: whatever error the start answers with, no process may have been created
+ * for it and nothing may be left (with resources really available this time) */
+#define NOOR 9
+static void spawn_oor(long k)
+{
+  static const int oorv[3] = { 8, 99, -1 };
+  int stream = (int) (k % 3), tv = oorv[k / 3];
+  memset(&vk_cfg, 0, sizeof vk_cfg);
+  vk_cfg.real_exec = 1;
+  vk_cfg.vlimit = 64;
+  snprintf(key, sizeof key, "h_c13|unknown-type|stream=%d|type=%d", stream, tv);
+  hx_desc("%s", key);
+  snprintf(key, sizeof key, "h_c13|unknown-type");
+  hx_begin();
+  struct vk_fdsnap before;
+  vk_fd_snapshot(&before);
+  reproc_options o;
+  memset(&o, 0, sizeof o);
+  (stream == 0 ? &o.redirect.in : stream == 1 ? &o.redirect.out : &o.redirect.err)->type = (REPROC_REDIRECT) tv;
+  vk_script("");
+  reproc_t *p = hx_new();
+  int r = hx_start(p, hx_helper_argv(), o);
+  if (r >= 0) vk_violation("C13", "unknown-type-rejected", key, "start returned %d for redirect type %d on stream %d", r, tv, stream);
+  else if (vk_nchildren) vk_violation("C13", "rejected-before-side-effects", key, "redirect type %d on stream %d: start returned %s only after it had forked a child", tv, stream, hx_errname(r));
+  else vk_hit(CL_OOR);
+  if (r >= 0) { reproc_stop_actions k2 = { { REPROC_STOP_KILL, REPROC_INFINITE }, { REPROC_STOP_NOOP, 0 }, { REPROC_STOP_NOOP, 0 } }; reproc_stop(p, k2); }
+  hx_destroy(p);
+  hx_check_ledgers("C13", key, &before, 1);
+}
+
 static long nbatches(int tier)
 {
   long total = tier ? NFULL : NQ_ALONE + NQ_PAIRS;
@@ -332,7 +362,7 @@ static long nbatches(int tier)
 static long c13_n(int tier)
 {
   collect_valid();
-  return nbatches(tier) + nvalid;
+  return nbatches(tier) + nvalid + NOOR;
 }
 
 static void c13_run(int tier, long cfg)
@@ -344,6 +374,7 @@ static void c13_run(int tier, long cfg)
     return;
   }
   collect_valid();
+  if (cfg - nb >= nvalid) { spawn_oor(cfg - nb - nvalid); return; }
   spawn_valid(valid_idx[cfg - nb]);
 }
 
